@@ -452,14 +452,17 @@ func extCondWait(fr *frame, a []value) value {
 		i.park(g, "cond wait in "+fr.callerName(), func() bool { return g.wake })
 	}
 	g.wake = false
+	i.traceSync(fr, evWake, p, 0, g.wakeBy)
 	callMethod(fr, locker, "Lock")
 	return nil
 }
 
 func extCondSignal(fr *frame, a []value) value {
 	cs := fr.i.condOf(a[0].(*value))
+	idx := fr.i.traceSync(fr, evSignal, a[0].(*value), 0, 0)
 	if len(cs.waiters) > 0 {
 		cs.waiters[0].wake = true
+		cs.waiters[0].wakeBy = idx
 		cs.waiters = cs.waiters[1:]
 	}
 	fr.i.syncPoint(fr, "cond signal")
@@ -468,8 +471,10 @@ func extCondSignal(fr *frame, a []value) value {
 
 func extCondBroadcast(fr *frame, a []value) value {
 	cs := fr.i.condOf(a[0].(*value))
+	idx := fr.i.traceSync(fr, evSignal, a[0].(*value), 0, 0)
 	for _, g := range cs.waiters {
 		g.wake = true
+		g.wakeBy = idx
 	}
 	cs.waiters = nil
 	fr.i.syncPoint(fr, "cond broadcast")
@@ -489,6 +494,9 @@ func callMethod(fr *frame, recv iface, name string) value {
 
 func extWgAdd(fr *frame, a []value) value {
 	s := fr.i.syncOf(a[0].(*value))
+	if asInt64(a[1]) < 0 {
+		fr.i.traceSync(fr, evWgDone, a[0].(*value), 0, 0)
+	}
 	s.wgCount += asInt64(a[1])
 	if s.wgCount < 0 {
 		panic(targetPanic{iface{t: types.Typ[types.String], v: "sync: negative WaitGroup counter"}})
@@ -501,6 +509,7 @@ func extWgWait(fr *frame, a []value) value {
 	if s.wgCount > 0 {
 		fr.i.park(fr.g, "waitgroup wait", func() bool { return s.wgCount == 0 })
 	}
+	fr.i.traceSync(fr, evJoin, a[0].(*value), 0, 0)
 	return nil
 }
 
@@ -509,6 +518,9 @@ func extOnceDo(fr *frame, a []value) value {
 	if !s.onceDone {
 		s.onceDone = true
 		call(fr.i, fr, fr.callpos, a[1], nil)
+		fr.i.traceSync(fr, evWgDone, a[0].(*value), 0, 0)
+	} else {
+		fr.i.traceSync(fr, evJoin, a[0].(*value), 0, 0)
 	}
 	return nil
 }
@@ -516,6 +528,7 @@ func extOnceDo(fr *frame, a []value) value {
 func extAtomicAdd(fr *frame, a []value) value {
 	p := a[0].(*value)
 	fr.i.syncPoint(fr, "atomic")
+	fr.i.traceSync(fr, evAtomic, p, 0, 0)
 	nv := binop(fr, tokenADD, nil, *p, a[1])
 	*p = nv
 	return nv
@@ -523,17 +536,20 @@ func extAtomicAdd(fr *frame, a []value) value {
 
 func extAtomicLoad(fr *frame, a []value) value {
 	fr.i.syncPoint(fr, "atomic")
+	fr.i.traceSync(fr, evAtomic, a[0].(*value), 0, 0)
 	return *a[0].(*value)
 }
 
 func extAtomicStore(fr *frame, a []value) value {
 	fr.i.syncPoint(fr, "atomic")
+	fr.i.traceSync(fr, evAtomic, a[0].(*value), 0, 0)
 	*a[0].(*value) = a[1]
 	return nil
 }
 
 func extAtomicCAS(fr *frame, a []value) value {
 	fr.i.syncPoint(fr, "atomic")
+	fr.i.traceSync(fr, evAtomic, a[0].(*value), 0, 0)
 	p := a[0].(*value)
 	if equals(nil, *p, a[1]) {
 		*p = a[2]
